@@ -37,11 +37,21 @@ class BufferingDestination(object):
 
     def __init__(self):
         self.messages = []
+        self._lock = Lock()
+        # Once the buffer has been handed over to real destinations, the
+        # function late arrivals are passed on to:
+        self._forward = None
 
     def __call__(self, message):
-        self.messages.append(message)
-        while len(self.messages) > 1000:
-            self.messages.pop(0)
+        with self._lock:
+            if self._forward is None:
+                self.messages.append(message)
+                while len(self.messages) > 1000:
+                    self.messages.pop(0)
+                return
+        # Another thread replaced us with real destinations after the caller
+        # had already picked us as its destination; don't lose the message.
+        self._forward(message)
 
 
 class Destinations(object):
@@ -128,18 +138,21 @@ class Destinations(object):
         @param destinations: A list of callables that takes message
             dictionaries.
         """
-        buffered_messages = None
         if not self._any_added:
             # These are first set of messages added, so we need to clear
             # BufferingDestination:
             self._any_added = True
-            buffered_messages = self._destinations[0].messages
-            self._destinations = []
-        self._destinations.extend(destinations)
-        if buffered_messages:
-            # Re-deliver buffered messages:
-            for message in buffered_messages:
-                self.send(message)
+            buffer = self._destinations[0]
+            # Replace the list in one step, so concurrent senders see either
+            # the buffer or the new destinations, never an empty list:
+            self._destinations = list(destinations)
+            with buffer._lock:
+                # Re-deliver buffered messages:
+                for message in buffer.messages:
+                    self.send(message)
+                buffer._forward = self.send
+        else:
+            self._destinations.extend(destinations)
 
     def remove(self, destination):
         """
